@@ -198,12 +198,11 @@ func (t *transport) handle() {
 		case b := <-responses:
 			req, ok := outstanding[b.Tag]
 			if !ok {
-				// BUG(stevvooe): The exact handling of an unknown tag is
-				// unclear at this point. These may not necessarily fatal to
-				// the session, since they could be messages that the client no
-				// longer cares for. When we figure this out, replace this
-				// panic with something more sensible.
-				panic(fmt.Sprintf("unknown tag received: %v", b))
+				// A reply nobody is waiting for: an unsolicited or repeated
+				// tag from the peer, or the answer to a request whose write
+				// failed. It must not take the whole process down; drop it.
+				log.Printf("p9p: dropping reply with unknown tag: %v", b)
+				continue
 			}
 
 			// BUG(stevvooe): Must detect duplicate tag and ensure that we are
